@@ -27,6 +27,8 @@ BUILD = os.path.join(VERIF, "build")
 GOENV = dict(os.environ, GOFLAGS="-mod=mod", GOPROXY="off", GOSUMDB="off", GOTOOLCHAIN="local",
              CGO_ENABLED=os.environ.get("CGO_ENABLED", "0"))
 JOBS = str(min(16, os.cpu_count() or 4))
+# a scratch copy of the repository (mutation testing of hand-modelled properties): outputs are kept apart
+SUFFIX = ("-" + hashlib.sha1(REPO.encode()).hexdigest()[:8]) if REPO != "/repo" else ""
 
 FORBIDDEN = re.compile(r"\b(Admitted|admit|Axiom|Axioms|Parameter|Parameters|Conjecture|Conjectures|Hypothesis|Hypotheses|Variable|Variables)\b|Unset\s+Guard|Unset\s+Positivity|Unset\s+Universe|bypass_check|type-in-type|Admit\s+Obligations")
 
@@ -71,8 +73,17 @@ def build_tools(log, pid=None, want_harness=True):
     env = dict(GOENV)
     if RACE_PROPS.get(pid):
         env["CGO_ENABLED"] = "1"
-    cmd = ["go", "build", "-tags", "verif"] + (["-race"] if RACE_PROPS.get(pid) else []) + \
-          ["-o", os.path.join(BUILD, "bin", pid.lower()), "./cmd/" + pid.lower()]
+    modflag = []
+    if REPO != "/repo":
+        mf = os.path.join(BUILD, "gomod" + SUFFIX)
+        os.makedirs(mf, exist_ok=True)
+        with open(os.path.join(mf, "go.mod"), "w") as f:
+            f.write(open(os.path.join(h, "go.mod")).read().replace("=> /repo", "=> " + REPO))
+        with open(os.path.join(mf, "go.sum"), "w") as f:
+            f.write(open(gosum).read())
+        modflag = ["-modfile=" + os.path.join(mf, "go.mod")]
+    cmd = ["go", "build", "-tags", "verif"] + modflag + (["-race"] if RACE_PROPS.get(pid) else []) + \
+          ["-o", os.path.join(BUILD, "bin", pid.lower() + SUFFIX), "./cmd/" + pid.lower()]
     rc, out = sh(cmd, cwd=h, env=env, timeout=900)
     log.append(("build harness", rc, out))
     return rc == 0
@@ -301,13 +312,36 @@ def finding_matches(entry, prop, failure):
 
 # ---------------------------------------------------------------- main flow
 
+class RepoLock:
+    """checks hold this shared while they read /repo; bin/mutcheck holds it exclusively while /repo is patched"""
+    def __init__(self, exclusive=False):
+        self.mode = fcntl.LOCK_EX if exclusive else fcntl.LOCK_SH
+
+    def __enter__(self):
+        os.makedirs(BUILD, exist_ok=True)
+        self.f = open(os.path.join(BUILD, ".repolock"), "w")
+        if not os.environ.get("VERIF_HAVE_REPOLOCK"):
+            fcntl.flock(self.f, self.mode)
+        return self
+
+    def __exit__(self, *a):
+        if not os.environ.get("VERIF_HAVE_REPOLOCK"):
+            fcntl.flock(self.f, fcntl.LOCK_UN)
+        self.f.close()
+
+
 def check(cfg, tier, seed, replay=None):
+    with RepoLock():
+        return check_locked(cfg, tier, seed, replay)
+
+
+def check_locked(cfg, tier, seed, replay=None):
     """cfg keys: id, gen (translator parts), model_targets, proof_targets, props_file,
     harness (bool), mismatch_is_failure (bool), level, trusted_base, assumptions, rule, explanation"""
     pid = cfg["id"]
     t0 = time.time()
     log = []
-    outdir = os.path.join(BUILD, pid)
+    outdir = os.path.join(BUILD, pid + SUFFIX)
     os.makedirs(outdir, exist_ok=True)
     os.makedirs(os.path.join(VERIF, "evidence"), exist_ok=True)
     os.makedirs(os.path.join(VERIF, "replays"), exist_ok=True)
@@ -357,7 +391,7 @@ def check(cfg, tier, seed, replay=None):
     failures, known_hits = [], []
     mismatches, case_errors, n_case_files = [], [], 0
     if tools_ok and cfg.get("harness", True):
-        args = [os.path.join(BUILD, "bin", pid.lower()), outdir, tier, str(seed)]
+        args = [os.path.join(BUILD, "bin", pid.lower() + SUFFIX), outdir, tier, str(seed)]
         if replay:
             args.append(replay)
         try:
@@ -450,7 +484,8 @@ def check(cfg, tier, seed, replay=None):
         "coverage": cov, "assumptions": cfg.get("assumptions", []),
         "wall_s": round(time.time() - t0, 2), "violations": 1 if violation else 0,
     }
-    json.dump(ev, open(os.path.join(VERIF, "evidence", pid + ".json"), "w"), indent=1, default=str)
+    evpath = os.path.join(VERIF, "evidence", pid + ".json") if not SUFFIX else os.path.join(outdir, "evidence.json")
+    json.dump(ev, open(evpath, "w"), indent=1, default=str)
     with open(os.path.join(outdir, "log.txt"), "w") as lf:
         for name, rc, out in log:
             lf.write("=== %s (rc=%s)\n%s\n" % (name, rc, out))
